@@ -17,7 +17,7 @@ def specs(tier):
             out.append(XSpec("total[empty string]", H, "cond_total", None, timeout=60, env=dict(VB_SLEN=0, VB_FIRST="empty"),
                              bounds=dict(string="''")))
             continue
-        out.append(XSpec("total[len<=%d,first=%s]" % (slen, first), H, "cond_total", "reach_total", timeout=600 if tier == "quick" else 3000,
+        out.append(XSpec("total[len<=%d,first=%s]" % (slen, first), H, "cond_total", "reach_total", timeout=600 if tier == "quick" else 1800,
                          env=dict(VB_SLEN=slen, VB_FIRST=first), bounds=dict(string="any Unicode string of length <= %d" % slen,
                                                                              first_char="class %s of ;= ,\"%%tab / other" % first,
                                                                              dialect="inferred, or supplied gff3 default")))
@@ -36,8 +36,8 @@ def specs(tier):
                          bounds=dict(dialect=name, value="1 arbitrary character (any Unicode)", keys="a.b, ID")))
         if tier == "thorough":
             out.append(XSpec("print-parse[%s,2 arbitrary values]" % name, H, "cond_supplied", "reach_supplied",
-                             timeout=2000, env=dict(env, VB_FIXKEYS=1), bounds=dict(dialect=name, values="2 arbitrary characters", keys="a.b, ID")))
-            out.append(XSpec("print-parse[%s,value<=2 chars]" % name, H, "cond_supplied1", "reach_supplied1", timeout=2000,
+                             timeout=900, env=dict(env, VB_FIXKEYS=1), bounds=dict(dialect=name, values="2 arbitrary characters", keys="a.b, ID")))
+            out.append(XSpec("print-parse[%s,value<=2 chars]" % name, H, "cond_supplied1", "reach_supplied1", timeout=900,
                              env=dict(env, VB_VLEN=2), bounds=dict(dialect=name, value="1-2 arbitrary characters")))
     for sep, trail, rep in itertools.product(_par.SEPS, ("0", "1"), ("0", "1")):
         env = dict(VB_FMT="gtf", VB_SEP=sep, VB_TRAIL=trail, VB_REP=rep, VB_VLEN=1)
